@@ -297,6 +297,11 @@ class Extract(Function):
         super().__init__("EXTRACT", date_part, alias=alias)
         self.field = field
 
+    def nodes_(self):  # type:ignore[no-untyped-def]
+        yield from super().nodes_()
+        if hasattr(self.field, "nodes_"):
+            yield from self.field.nodes_()
+
     def get_special_params_sql(self, ctx: SqlContext) -> str:
         return "FROM {field}".format(field=self.field.get_sql(ctx))
 
